@@ -107,3 +107,14 @@ package core
 //@   ensures include_err: incErr != nil ==> result0 == false && result1 != nil && calls(onRow) == old(calls(onRow))
 //@   ensures forward: incErr == nil && incRow != nil ==> calls(onRow) == old(calls(onRow)) + 1 && lastarg(onRow, 0) == incRow && result0 == lastret(onRow, 0) && result1 == lastret(onRow, 1)
 //@   ensures skip: incErr == nil && incRow == nil ==> calls(onRow) == old(calls(onRow))
+
+// Source accessors are pure reads of the plan node's configuration.
+//@ interface RowSource.GetResolution
+//@   params this
+//@   pure
+//@ interface RowSource.GetAsOf
+//@   params this
+//@   pure
+//@ interface RowSource.GetUntil
+//@   params this
+//@   pure
